@@ -24,7 +24,7 @@ RULE = ("histories from a Hypothesis rule-based state machine owning one shared 
         "processes with PYTHONHASHSEED in {0,1,2,3,12345} (thorough: 9 values) x import orders {grammar, sql, "
         "rewrite first} hashing the outcomes of a generated corpus. Non-trivial: >= 3 steps with >= 1 raising "
         "step before the probe; distinct by step sequence."
-        " Reference outcomes for the fixed pools and the probe come from pristine child processes (one per string); error inputs include truncated prefixes of valid filters and unterminated literals of every quoted kind; import orders also include the sqlalchemy and django backends; the corpus contains every built-in with 0..4 arguments.")
+        " Long histories: one shared pair serves 64-1100 (thorough: 9000) distinct inputs mixed with failing ones (a failing input of more than 128 characters is sent twice), every tree judged by the harness's decoder and the first and last inputs parsed again at the end; the child-process corpus includes inputs along the size ladder (lists with repeated members up to 257 items, runs, nesting). Reference outcomes for the fixed pools and the probe come from pristine child processes (one per string); error inputs include truncated prefixes of valid filters and unterminated literals of every quoted kind; import orders also include the sqlalchemy and django backends; the corpus contains every built-in with 0..4 arguments.")
 ASSUMPTIONS = ["interleavings are those a single thread can produce (alternating lazy token pulls); pre-emptive "
                "thread schedules are not owned by the harness"]
 
@@ -194,7 +194,61 @@ def run_history(steps):
     return None
 
 
+def long_history(n, seed):
+    """One shared pair serves n distinct inputs (distinct identifiers, function names, strings; every
+    seventh followed by failing inputs - unclosed parentheses, unterminated literals, a failing input of
+    more than 128 characters sent twice); every tree must decode to the term that was printed, failing
+    inputs must fail the way they do on a new pair, and the first and last inputs are parsed again at
+    the end. The oracle for the valid inputs is the harness's own decoder, not another instance."""
+    from ..decode import decode
+    from ..terms import ident
+    from odata_query.grammar import ODataLexer, ODataParser
+    w = World()
+    items = []
+    for i in range(n):
+        k = (i + seed) % 6
+        term = [("cmp", "eq", ident("field_%d" % i), ("lit", "int", str(i))),
+                ("cmp", "in", ("path", ident("p%d" % i), "q%d" % (i % 7)),
+                 ("list", (("lit", "str", "v%d" % i), ("lit", "int", str(i % 3)), ("lit", "int", str(i % 3))))),
+                ("call", "f%d" % i, ("ns%d" % (i % 5),), (ident("a%d" % i),)),
+                ("lambda", ident("coll%d" % i), "any", "x", ("cmp", "gt", ("path", ident("x"), "n%d" % i), ("lit", "int", "1"))),
+                ("bool", "and", ("cmp", "eq", ident("g%d" % i), ("lit", "str", "s%d" % i)), ("un", "not", ident("h%d" % i))),
+                ("cmp", "eq", ("call", "tolower", (), (ident("t%d" % i),)), ("lit", "str", "x" * (i % 40)))][k]
+        items.append((printer.render(term), term))
+
+    def valid(i, when):
+        text, term = items[i]
+        try:
+            got = decode(w.parser.parse(w.lexer.tokenize(text)))
+        except Exception as e:
+            return ("long-history:valid-input-raises", "input #%d %r %s (of %d): %s: %s" % (i, text, when, n, type(e).__name__, e))
+        if got != term:
+            return ("long-history:wrong-tree", "input #%d %r %s (of %d) decodes to %r" % (i, text, when, n, got))
+        return None
+
+    for i in range(n):
+        r = valid(i, "in sequence")
+        if r:
+            return r
+        if i % 7 == 3:
+            long_bad = " and ".join("c%d_%d eq %d" % (i, j, j) for j in range(14)) + " and name eq 'two  blanks' #"
+            for bad in ("(" * (i % 5 + 1) + "a%d eq" % i, "a%d eq 'unterminated %d" % (i, i), long_bad, long_bad,
+                        "f%d(" % i, "a%d eq 1)" % i):
+                got = outcome(w.lexer, w.parser, bad)
+                exp = outcome(ODataLexer(), ODataParser(), bad)
+                if not got.startswith("exc:") or got != exp:
+                    return ("long-history:failing-input-differs", "after %d inputs, %r: shared=%s new pair=%s" % (
+                        i, bad[:80], got[:160], exp[:160]))
+    for i in list(range(min(30, n))) + list(range(max(n - 30, 0), n)):
+        r = valid(i, "again at the end")
+        if r:
+            return r
+    return w.probe(PROBE)
+
+
 def replay(case):
+    if "long" in case:
+        return long_history(case["long"], case["seed"])
     if "hashseeds" in case:
         return run_children(case["hashseeds"], case["orders"], case["corpus"])
     return run_history([tuple(s) for s in case["steps"]])
@@ -356,6 +410,19 @@ def corpus_for(seed, n_random):
         full = ".".join(ns + (name,))
         for n in range(0, 5):
             out.append("%s(%s)" % (full, ", ".join("a%d" % i for i in range(n))))
+    # inputs that are large along the size ladder (long lists with repeated members, long operator
+    # runs, deep nesting, long names, many digits)
+    sm = [("id", "a", ()), ("lit", "int", "1"), ("lit", "str", "x")]
+    sp = [("call", "tolower", (), (("id", "s", ()),)), ("list", (("lit", "int", "1"), ("lit", "int", "1"))),
+          ("cmp", "eq", ("id", "b", ()), ("lit", "int", "2"))]
+    cfg = gen_syntax.Cfg()
+    for dim in sorted(gen_syntax.LADDER):
+        for n in gen_syntax.LADDER[dim]:
+            if n > 300:
+                continue
+            for k in range(2):
+                rr = random.Random("%s-%d-%d-%d" % (dim, n, k, seed))
+                out.append(printer.render(gen_syntax._build_scaled(dim, n, rr, sp, sm, cfg)))
     r = random.Random(seed)
     pool = list(out)
     for i in range(n_random):
@@ -369,6 +436,8 @@ def plan(tier, seed, scale):
     base = pristine()
     tasks = [{"name": "machine-%d" % i, "kind": "machine", "n": max(n // K, 2), "shard": i,
               "steps": 30 if tier == "quick" else 80, "pristine": base} for i in range(K)]
+    for n in ([64, 130, 300, 600, 1100] if tier == "quick" else [64, 130, 300, 600, 1100, 2100, 4200, 9000]):
+        tasks.append({"name": "long-%d" % n, "kind": "long", "n": n, "pristine": base})
     hs = [0, 1, 2, 3, 12345] if tier == "quick" else [0, 1, 2, 3, 7, 42, 12345, 99999, 4294967295]
     for i, h in enumerate(hs):
         tasks.append({"name": "children-%d" % h, "kind": "children", "hashseeds": [0, h] if h else [0, 0],
@@ -390,6 +459,14 @@ def run_task(task, seed, acc):
         return
     global _pristine
     _pristine = task.get("pristine") or _pristine
+    if task["kind"] == "long":
+        case = {"long": task["n"], "seed": seed}
+        r = long_history(task["n"], seed)
+        acc.case(key=digest(case), nontrivial=True, sample=case)
+        acc.cls("long_history_inputs", task["n"])
+        if r:
+            acc.fail(r[0], case, r[1])
+        return
     Machine = make_machine(acc)
     try:
         run_state_machine_as_test(
